@@ -42,8 +42,9 @@ ASSUMPTIONS = [
     "without a writer (blocks for ever) is made observable as HangForever by the substituted open()",
     "directory cache switched off (cachetime 0, cache file removed before every request)",
     "requests go through the real GopherRequestHandler in memory (harness/world.py); Gemini through the TLS mock",
-    "the security filter of handlers/base.py is pinned in the model as the five forbidden substrings; a child whose "
-    "name passes that filter and that is a regular file or directory without an injected fault is 'healthy'",
+    "the security filter of handlers/base.py is pinned in the model as the five forbidden substrings, but 'healthy' is finally "
+    "judged on the implementation itself: a child the model calls healthy that the listing omits is fetched by exact selector "
+    "through the same protocol form; served -> Robust.HealthyListed, refused -> unservable under the code's own rules (DRIFT only)",
 ]
 
 _DW = None
@@ -82,6 +83,12 @@ def _job(job):
     dw.build(case)
     for pr in protos:
         events, extra = dw.listing(pr, _order(case, mode))
+        resp = events[-1]
+        if resp["status"] == "ok":
+            fev, fex = dw.probe_omitted(pr, resp["listing"])
+            events += fev
+            extra["fetches"] = fex
+        events.append({"ev": "end"})
         out.append((pr, events, extra))
     return out
 
@@ -107,18 +114,24 @@ def cases_from_tlc(t, data_text, lists):
 
 def selftest(traces):
     """Binding demonstration: corrupt a recorded field / drop an event of accepted traces; TraceC12 must reject."""
-    good = [t for t in traces if t["events"][-1]["ev"] == "response" and t["events"][-1]["status"] == "ok"
-            and len(t["events"][-1]["listing"]) >= 2][:3]
+    def ri(t):
+        return next(i for i, e in enumerate(t["events"]) if e["ev"] == "response")
+    good = [t for t in traces if t["events"][-1]["ev"] == "end" and t["events"][ri(t)]["status"] == "ok"
+            and len(t["events"][ri(t)]["listing"]) >= 2 and not any(e["ev"] == "fetch" for e in t["events"])][:3]
     if not good:
         return {"ran": False}
     bad = []
     for t in good:
-        a = json.loads(json.dumps({"id": t["id"] + "#dropped-entry", "init": t["init"], "events": t["events"]}))
-        a["events"][-1]["listing"] = a["events"][-1]["listing"][1:]                 # a healthy child disappears
-        b = json.loads(json.dumps({"id": t["id"] + "#no-response", "init": t["init"], "events": t["events"][:-1]}))
-        b["events"].append({"ev": "response", "status": "notfound", "listing": [], "culprit": ""})
+        i = ri(t)
+        first = t["events"][i]["listing"][0]["sel"].rsplit("/", 1)[1]
+        a = json.loads(json.dumps({"id": t["id"] + "#dropped-unprobed", "init": t["init"], "events": t["events"]}))
+        a["events"][i]["listing"] = a["events"][i]["listing"][1:]                  # a healthy child disappears, nobody asked for it
+        a2 = json.loads(json.dumps({"id": t["id"] + "#dropped-but-served", "init": t["init"], "events": a["events"][:-1]}))
+        a2["events"] += [{"ev": "fetch", "name": first, "got": "served"}, {"ev": "end"}]   # ... and the server does serve it
+        b = json.loads(json.dumps({"id": t["id"] + "#no-response", "init": t["init"], "events": t["events"][:i]}))
+        b["events"] += [{"ev": "response", "status": "notfound", "listing": [], "culprit": ""}, {"ev": "end"}]
         c = json.loads(json.dumps({"id": t["id"] + "#dup-enum", "init": t["init"], "events": [t["events"][0]] + t["events"]}))
-        bad += [a, b, c]
+        bad += [a, a2, b, c]
     tv = dl.validate_parallel("TraceC12", "TraceC12.cfg", bad)
     clauses = sorted({r["clause"] for r in tv["rejected"]})
     if tv["accepted"] != 0:
@@ -200,6 +213,11 @@ def main(chk, replay=None):
         kcl = "%s|%s|%s" % (rj["clause"], ex["culprit_label"] or "-", ex["cause"] or "-")
         classes[kcl] = classes.get(kcl, 0) + 1
     st = selftest(traces) if not replay else {"ran": False}
+    fetches = {}
+    for tr in traces:
+        for e in tr["events"]:
+            if e["ev"] == "fetch":
+                fetches[e["got"]] = fetches.get(e["got"], 0) + 1
     faulty = [tr for tr in traces if any(dl.kid_label(tr["case"]["d"], k["name"]).split(":")[0] not in ("healthy", "dot-healthy")
                                          for k in tr["case"]["d"]["kids"])]
     nontrivial = len({json.dumps([tr["init"], tr["events"]], sort_keys=True) for tr in faulty if tr["extra"]["fired"] or
@@ -218,7 +236,7 @@ def main(chk, replay=None):
         "samples": [{"id": tr["id"], "events": tr["events"]} for tr in (faulty[:2] + faulty[-1:])],
         "checker_cmd": res["cmd"] + " ; " + tv["cmd"],
         "cases_from_tlc": len(cases), "generation_states": gen_states, "trace_states": tv["states"],
-        "faults_fired": fired, "rejection_classes": classes, "listdir_substitute_calls": enums,
+        "faults_fired": fired, "rejection_classes": classes, "omitted_children_fetched": fetches, "listdir_substitute_calls": enums,
         "witness_pinned_model_violates": wit["inv_violations"], "selftest": st,
         "model_coverage_zero": sorted(k for k, v in res.get("coverage", {}).items() if v[0] == 0)[:20],
         "bindings": ["B1 ignore pattern + handler list from conf", "B2 every TLC initial state built and listed", "B3 TraceC12"],
